@@ -154,97 +154,143 @@ func TestVerifEpochData(t *testing.T) {
 			for _, q := range s.Obs {
 				cnOf[q.E] = q.Cn
 			}
-			for _, q := range s.Obs {
-				if poisoned {
-					break
-				}
-				for _, virtual := range []bool{false, true} {
-					from := hdr[q.B]
-					depth := num[q.B]
-					via := "imported-block"
-					if virtual {
-						// header of a child of q.B that is not imported (and announces nothing)
-						from = vstHeader(hdr[q.B].Hash(), num[q.B]+1, 200+q.B, true, -1, uint64(vedFirstSlot+q.E*vedEpochLen+9))
-						depth++
-						via = "unimported-child"
-					}
-					dcls := "depth-ge-2"
-					if depth < 2 {
-						dcls = "depth-lt-2"
-					}
-					// --- epoch data
-					acls := "announced-on-ancestry"
-					if q.D == -1 {
-						acls = "nothing-announced-for-epoch"
-						if q.Dn > 0 {
-							acls = "announced-on-other-fork-only"
-						}
-					}
-					sigBase := "GetEpochDataRaw/" + acls + "/" + dcls
-					if hangs[sigBase+"/hang"] >= 2 {
-						skipped++
-					} else {
-						var got *types.EpochDataRaw
-						var gerr error
-						pm, to := vGuard(vedBudget, func() { got, gerr = es.GetEpochDataRaw(q.E, from) })
-						res.Case("GetEpochDataRaw", fmt.Sprintf("%s|%s|%s", acls, dcls, via))
-						res.Cmp()
-						switch {
-						case to:
-							hangs[sigBase+"/hang"]++
-							poisoned = true
-							fail("GetEpochDataRaw", fmt.Sprintf("epoch %d from block %d (%s)", q.E, q.B, via), fmt.Sprintf("returns within %s (expected announcer: %d)", vedBudget, q.D), "no return (watchdog)", sigBase+"/hang")
-						case pm != "":
-							fail("GetEpochDataRaw", fmt.Sprintf("epoch %d from block %d (%s)", q.E, q.B, via), "no panic", pm, sigBase+"/panic")
-						case q.D == -1 && gerr == nil:
-							fail("GetEpochDataRaw", fmt.Sprintf("epoch %d from block %d (%s)", q.E, q.B, via), "error (nothing announced on the ancestry)", fmt.Sprintf("data of %d", vedDataID(got)), sigBase+"/returned-foreign-data")
-						case q.D != -1 && (gerr != nil || vedDataID(got) != q.D):
-							fail("GetEpochDataRaw", fmt.Sprintf("epoch %d from block %d (%s)", q.E, q.B, via), fmt.Sprintf("data of %d", q.D), fmt.Sprint(vedDataID(got), gerr), sigBase+"/wrong-data")
-						}
-					}
+			parentOf := map[int]int{}
+			for _, pr := range prefix {
+				var ps vedStep
+				_ = json.Unmarshal(pr, &ps)
+				parentOf[ps.O.B] = ps.O.P
+			}
+			phase := ""
+			var liveOnly func(b int) bool
+			lookups := func() {
+				for _, q := range s.Obs {
 					if poisoned {
 						break
 					}
-					// --- configuration: announced on the ancestry for the epoch, else latest earlier, else genesis
-					// class: where the walk from epoch q.E down to the expected configuration's epoch
-					// passes an epoch whose configuration was announced on OTHER forks only
-					ccls := "config-announced-on-ancestry"
-					if q.E == 0 {
-						ccls = "epoch-0"
-					} else if q.C == 0 || epochOf[q.C]+1 != q.E {
-						ccls = "falls-back-to-earlier-config"
-						low := uint64(1)
-						if q.C != 0 {
-							low = epochOf[q.C] + 2
-						}
-						for e := low; e <= q.E; e++ {
-							if cnOf[e] > 0 {
-								ccls = "passes-epoch-announced-on-other-fork-only"
-							}
-						}
-					}
-					csig := "GetConfigData/" + ccls + "/" + dcls
-					if hangs[csig+"/hang"] >= 2 {
-						skipped++
+					if liveOnly != nil && !liveOnly(q.B) {
 						continue
 					}
-					var gotc *types.ConfigData
-					var cerr error
-					pm, to := vGuard(vedBudget, func() { gotc, cerr = es.GetConfigData(q.E, from) })
-					res.Case("GetConfigData", fmt.Sprintf("%s|%s|%s", ccls, dcls, via))
-					res.Cmp()
-					switch {
-					case to:
-						hangs[csig+"/hang"]++
-						poisoned = true
-						fail("GetConfigData", fmt.Sprintf("epoch %d from block %d (%s)", q.E, q.B, via), fmt.Sprintf("returns within %s (expected config of %d)", vedBudget, q.C), "no return (watchdog)", csig+"/hang")
-					case pm != "":
-						fail("GetConfigData", fmt.Sprintf("epoch %d from block %d (%s)", q.E, q.B, via), "no panic", pm, csig+"/panic")
-					case cerr != nil:
-						fail("GetConfigData", fmt.Sprintf("epoch %d from block %d (%s)", q.E, q.B, via), fmt.Sprintf("config of %d", q.C), cerr.Error(), csig+"/error")
-					case vedConfigID(gotc) != q.C:
-						fail("GetConfigData", fmt.Sprintf("epoch %d from block %d (%s)", q.E, q.B, via), fmt.Sprintf("config of %d", q.C), fmt.Sprintf("config of %d", vedConfigID(gotc)), csig+"/wrong-config")
+					for _, virtual := range []bool{false, true} {
+						from := hdr[q.B]
+						depth := num[q.B]
+						via := "imported-block"
+						if virtual {
+							// header of a child of q.B that is not imported (and announces nothing)
+							from = vstHeader(hdr[q.B].Hash(), num[q.B]+1, 200+q.B, true, -1, uint64(vedFirstSlot+q.E*vedEpochLen+9))
+							depth++
+							via = "unimported-child"
+						}
+						dcls := "depth-ge-2"
+						if depth < 2 {
+							dcls = "depth-lt-2"
+						}
+						// --- epoch data
+						acls := "announced-on-ancestry"
+						if q.D == -1 {
+							acls = "nothing-announced-for-epoch"
+							if q.Dn > 0 {
+								acls = "announced-on-other-fork-only"
+							}
+						}
+						sigBase := "GetEpochDataRaw/" + acls + "/" + dcls + phase
+						if hangs[sigBase+"/hang"] >= 2 {
+							skipped++
+						} else {
+							var got *types.EpochDataRaw
+							var gerr error
+							pm, to := vGuard(vedBudget, func() { got, gerr = es.GetEpochDataRaw(q.E, from) })
+							res.Case("GetEpochDataRaw", fmt.Sprintf("%s|%s|%s", acls, dcls, via))
+							res.Cmp()
+							switch {
+							case to:
+								hangs[sigBase+"/hang"]++
+								poisoned = true
+								fail("GetEpochDataRaw", fmt.Sprintf("epoch %d from block %d (%s)", q.E, q.B, via), fmt.Sprintf("returns within %s (expected announcer: %d)", vedBudget, q.D), "no return (watchdog)", sigBase+"/hang")
+							case pm != "":
+								fail("GetEpochDataRaw", fmt.Sprintf("epoch %d from block %d (%s)", q.E, q.B, via), "no panic", pm, sigBase+"/panic")
+							case q.D == -1 && gerr == nil:
+								fail("GetEpochDataRaw", fmt.Sprintf("epoch %d from block %d (%s)", q.E, q.B, via), "error (nothing announced on the ancestry)", fmt.Sprintf("data of %d", vedDataID(got)), sigBase+"/returned-foreign-data")
+							case q.D != -1 && (gerr != nil || vedDataID(got) != q.D):
+								fail("GetEpochDataRaw", fmt.Sprintf("epoch %d from block %d (%s)", q.E, q.B, via), fmt.Sprintf("data of %d", q.D), fmt.Sprint(vedDataID(got), gerr), sigBase+"/wrong-data")
+							}
+						}
+						if poisoned {
+							break
+						}
+						// --- configuration: announced on the ancestry for the epoch, else latest earlier, else genesis
+						// class: where the walk from epoch q.E down to the expected configuration's epoch
+						// passes an epoch whose configuration was announced on OTHER forks only
+						ccls := "config-announced-on-ancestry"
+						if q.E == 0 {
+							ccls = "epoch-0"
+						} else if q.C == 0 || epochOf[q.C]+1 != q.E {
+							ccls = "falls-back-to-earlier-config"
+							low := uint64(1)
+							if q.C != 0 {
+								low = epochOf[q.C] + 2
+							}
+							for e := low; e <= q.E; e++ {
+								if cnOf[e] > 0 {
+									ccls = "passes-epoch-announced-on-other-fork-only"
+								}
+							}
+						}
+						csig := "GetConfigData/" + ccls + "/" + dcls + phase
+						if hangs[csig+"/hang"] >= 2 {
+							skipped++
+							continue
+						}
+						var gotc *types.ConfigData
+						var cerr error
+						pm, to := vGuard(vedBudget, func() { gotc, cerr = es.GetConfigData(q.E, from) })
+						res.Case("GetConfigData", fmt.Sprintf("%s|%s|%s", ccls, dcls, via))
+						res.Cmp()
+						switch {
+						case to:
+							hangs[csig+"/hang"]++
+							poisoned = true
+							fail("GetConfigData", fmt.Sprintf("epoch %d from block %d (%s)", q.E, q.B, via), fmt.Sprintf("returns within %s (expected config of %d)", vedBudget, q.C), "no return (watchdog)", csig+"/hang")
+						case pm != "":
+							fail("GetConfigData", fmt.Sprintf("epoch %d from block %d (%s)", q.E, q.B, via), "no panic", pm, csig+"/panic")
+						case cerr != nil:
+							fail("GetConfigData", fmt.Sprintf("epoch %d from block %d (%s)", q.E, q.B, via), fmt.Sprintf("config of %d", q.C), cerr.Error(), csig+"/error")
+						case vedConfigID(gotc) != q.C:
+							fail("GetConfigData", fmt.Sprintf("epoch %d from block %d (%s)", q.E, q.B, via), fmt.Sprintf("config of %d", q.C), fmt.Sprintf("config of %d", vedConfigID(gotc)), csig+"/wrong-config")
+						}
 					}
+				}
+			}
+			lookups()
+			// "queried from every block" also after the tree was pruned: at the end of the behaviour the first block of the
+			// largest first-level subtree is finalised (BlockState.SetFinalisedHash prunes the competing forks; their
+			// announcements stay in the epoch state's memory) and every live block is asked again -- what its own ancestry
+			// announced has not changed
+			if si == len(b.Steps)-1 && !poisoned {
+				size := map[int]int{}
+				rootOf := func(x int) int {
+					for x != 0 && parentOf[x] != 0 {
+						x = parentOf[x]
+					}
+					return x
+				}
+				for x := range hdr {
+					if x != 0 {
+						size[rootOf(x)]++
+					}
+				}
+				fin, best := 0, 0
+				for r, n := range size {
+					if n > best || n == best && r < fin {
+						fin, best = r, n
+					}
+				}
+				if fin != 0 && len(size) > 1 {
+					if err := bs.SetFinalisedHash(hdr[fin].Hash(), 1, 0); err != nil {
+						t.Fatalf("VERIF-INFRA SetFinalisedHash(%d): %v", fin, err)
+					}
+					phase = "/after-pruning"
+					liveOnly = func(x int) bool { return x != 0 && rootOf(x) == fin }
+					lookups()
 				}
 			}
 		}
